@@ -292,6 +292,27 @@ pub fn gen(out: &mut Out, thorough: bool, seed: u64) {
             let bytes = b.into_bytes();
             emit_conn(out, &cfg, false, &[format!("d{}", hex(&bytes))], ("127.0.0.1", 40000), &bytes, if ws { "ws" } else { "http" }, nsub >= 1);
         }
+        // several requests on ONE kept-alive connection, each with a Host (and path) of its own, possibly ending in an upgrade:
+        // every request is routed by its own Host value, not by what an earlier request on the connection selected
+        for _ in 0..3 {
+            let n = rng.range(2, 5) as usize;
+            let mut all: Vec<u8> = Vec::new();
+            for k in 0..n {
+                let host = *rng.pick(HOSTS);
+                let path = *rng.pick(PATHS);
+                let last = k + 1 == n;
+                let ws = last && rng.chance(1, 3);
+                let mut b = format!("GET {} HTTP/1.1\r\n", path);
+                if !host.is_empty() { b += &format!("Host: {}\r\n", host); }
+                if ws { b += "Upgrade: websocket\r\nConnection: Upgrade\r\n"; }
+                else if !last { b += "Connection: keep-alive\r\n"; }
+                b += "\r\n";
+                all.extend(b.into_bytes());
+            }
+            crate::c01::NREQ.with(|c| c.set(n));
+            emit_conn(out, &cfg, false, &[format!("d{}", hex(&all))], ("127.0.0.1", 40000), &all, "keep-alive-hosts", nsub >= 1);
+            crate::c01::NREQ.with(|c| c.set(1));
+        }
     }
     big_apps(out, thorough, &mut rng);
     long_values(out, thorough, &mut rng);
